@@ -347,7 +347,7 @@ def placement_tag(A, B):
 
 def check(run):
     run.prove(MODULE, THEOREMS)
-    run.source_tie(['SrcRelate'], 'GeoVerif.Props.C02Src', ['GV.C02Src.' + t for t in ('containsPoint_eq', 'containsPoly_eq', 'containsLine_eq', 'containsMulti_eq', 'intersectsMulti_eq', 'intersectsPoint_eq', 'intersectsPoly_eq', 'intersectsLine_eq', 'isOnSegment_eq', 'lineContainsPoint_eq', 'lineContainsLine_eq', 'lineContainsPoly_eq', 'lineContainsMulti_eq', 'lineIntersectsMulti_eq', 'lineIntersectsPoint_eq', 'lineIntersectsPoly_eq', 'lineIntersectsLine_eq', 'pointContainsPoint_eq', 'pointContainsOther_eq', 'pointIntersectsPoint_eq', 'pointIntersects_delegates', 'pointContainsMulti_eq', 'src_contains_imp_intersects')])
+    run.source_tie(['SrcRelate'], 'GeoVerif.Props.C02Src', ['GV.C02Src.' + t for t in ('isOnSegment_eq', 'touches_loop_eq', 'touchesCoordinate_eq', 'containsPoint_eq', 'containsPoly_eq', 'containsLine_eq', 'containsMulti_eq', 'intersectsMulti_eq', 'intersectsPoint_eq', 'intersectsPoly_eq', 'intersectsLine_eq', 'lineContainsPoint_eq', 'lineContainsLine_eq', 'lineContainsPoly_eq', 'lineContainsMulti_eq', 'lineIntersectsMulti_eq', 'lineIntersectsPoint_eq', 'lineIntersectsPoly_eq', 'lineIntersectsLine_eq', 'pointContainsPoint_eq', 'pointContainsOther_eq', 'pointIntersectsPoint_eq', 'pointIntersects_delegates', 'pointContainsMulti_eq', 'src_contains_imp_intersects')])
     run.corpus(impl, spec)
     rng = run.rng
 
